@@ -59,7 +59,9 @@ def clause_point(repo, chk):
 
 def run(repo, chk, tier):
     clause_point(repo, chk)
-    from .c07 import check_sumvar, check_sumvar_call
+    from .c07 import check_sumvar, check_sumvar_call, check_transform_wrappers
+
+    check_transform_wrappers(repo, chk, only="cov")
 
     check_sumvar(repo, chk)
     check_sumvar_call(repo, chk)
